@@ -107,6 +107,28 @@ class EscapeAnalysis:
                     for t in types:
                         if self._type_name(fn, t) in anc:
                             return True
+            if isinstance(n, (ast.With, ast.AsyncWith)) and any(child is b for b in n.body):
+                # `with _errors_as_http():` - a repository @contextmanager generator whose `yield` sits in a try: its handlers are
+                # handlers around the with body (the exception is thrown into the generator at the yield)
+                for item in n.items:
+                    ce = item.context_expr
+                    if not isinstance(ce, ast.Call):
+                        continue
+                    try:
+                        g = self.p.resolve_call(fn, ce)
+                    except Exception:
+                        g = None
+                    if not (isinstance(g, FuncInfo) and any(d.split(".")[-1] in ("contextmanager", "asynccontextmanager") for d in g.decorators)):
+                        continue
+                    for t_ in ast.walk(g.node):
+                        if isinstance(t_, ast.Try) and any(isinstance(st_, ast.Expr) and isinstance(st_.value, ast.Yield) for st_ in t_.body):
+                            for h in t_.handlers:
+                                if h.type is None:
+                                    return True
+                                types = h.type.elts if isinstance(h.type, ast.Tuple) else [h.type]
+                                for tt in types:
+                                    if self._type_name(g, tt) in anc:
+                                        return True
             if isinstance(n, (ast.FunctionDef, ast.AsyncFunctionDef, ast.Lambda)):
                 break
             child = n
